@@ -213,7 +213,10 @@ class Real(PackedOps, RandOps):
         ranges = np.array([[int(a), int(b)] for a, b in rr], dtype=np.int64).reshape((len(rr), 2))
         values = None if kv.get('none') == '1' else self.scalar_for(m, kv['val'])
         old = hsm.PIXEL_RANGE_THRESHOLD
-        hsm.PIXEL_RANGE_THRESHOLD = -1 if kv.get('path', 'slice') == 'slice' else 10 ** 15
+        if 'thr' in kv:
+            hsm.PIXEL_RANGE_THRESHOLD = int(kv['thr'])
+        else:
+            hsm.PIXEL_RANGE_THRESHOLD = -1 if kv.get('path', 'slice') == 'slice' else 10 ** 15
         try:
             m.update_values_pix(ranges, values, operation=kv.get('op', 'replace'))
         finally:
@@ -575,6 +578,8 @@ class Real(PackedOps, RandOps):
             if kv['wf'] not in self.files:
                 raise NoMap(kv['wf'])
             kw['weightfile'] = self.files[kv['wf']]
+        if 'covord' in kv:
+            kw['nside_coverage'] = 2 ** int(kv['covord'])
         self.pool[kv['r']] = HealSparseMap.read(self.files[kv.get('f', 'f')], degrade_nside=2 ** int(kv['ord']),
                                                 reduction=kv.get('red', 'mean'), **kw)
         return 'ok'
